@@ -15,7 +15,7 @@ def body(run):
         mc_cfgs=[("ServerCore_mc.cfg", "contract: session, id and owner invariants on 2 sessions + null caller")],
         dev_cfgs=[("ServerCore_dev_subid-reuse.cfg", "deviation demo: subscription id reused while in use"),
                   ("ServerCore_dev_setmode-foreign-effective.cfg", "deviation demo: foreign SetMonitoringMode takes effect")],
-        simulate=run.pick(150, 3000), depth=7, max_deaths=run.pick(8, 40))
+        simulate=run.pick(12, 150), depth=7, max_deaths=run.pick(8, 40))
     run.cov["rule"] = ("seeded histories of 6 create/delete/set-mode requests by two activated sessions drawn by TLC's "
                        "simulator from the contract model; class = the request sequence (service, caller, target index)")
     run.assumptions += [
